@@ -1,4 +1,6 @@
 import ZI.Registry
+import ZI.Graph2
+/-! Driver for the adapter-registry layer (C04, C06, C07, C08, C09) over a specification graph that only grows. -/
 namespace Drv.Registry
 open ZI.Registry
 def nums (s : String) : List Nat := (s.splitOn " ").filterMap String.toNat?
@@ -6,40 +8,107 @@ def opts (s : String) : List (Option Nat) := ((s.splitOn " ").filter (· != ""))
 def opt1 (s : String) : Option Nat := if s.trimAscii.toString == "N" then none else s.trimAscii.toString.toNat?
 def val (s : String) : Option Val := match nums s with | [i, e] => some ⟨i, e⟩ | _ => none
 def shwV (o : Option Val) : String := match o with | some v => toString v.ident | none => "N"
+def shwK (k : Option Nat) : String := match k with | some v => toString v | none => "N"
 def FUEL := 32
-partial def loop (h : IO.FS.Stream) (w : World) (sros : List (Nat × List Nat)) : IO Unit := do
+def sortS (l : List String) : List String := (l.toArray.qsort (· < ·)).toList
+
+structure St where
+  w : World
+  g : ZI.Graph2.G
+  kinds : List (Nat × Bool)
+  objs : List (Nat × Nat)          -- object ↦ the specification `providedBy` returns for it
+
+def St.isI (s : St) (x : Nat) : Bool := ((s.kinds.find? (·.1 == x)).map (·.2)).getD true
+def St.sync (s : St) : St :=
+  { s with w := { s.w with sro := s.g.sro, iro := fun i => (s.g.sro i).filter s.isI } }
+def St.spec (s : St) (o : Nat) : Nat := ((s.objs.find? (·.1 == o)).map (·.2)).getD 0
+def fresh (verifying : Bool) : St :=
+  ({ w := { sro := fun i => [i, 0], iro := fun i => [i, 0], regs := [], verifying := verifying },
+     g := ZI.Graph2.init 0, kinds := [(0, true)], objs := [] } : St).sync
+
+/-- a factory returns `None` when its ident is divisible by 4 (a convention shared with the executor) -/
+def retNone (v : Val) : Bool := v.ident % 4 == 0
+def badName (n : String) : Bool := n.startsWith "#"
+
+partial def loop (h : IO.FS.Stream) (s : St) : IO Unit := do
   let line ← h.getLine
   if line.isEmpty then return ()
-  let f := (line.trimAscii.toString.splitOn "|").map fun s => s.trimAscii.toString
-  let mk (sros : List (Nat × List Nat)) (verifying : Bool) : World :=
-    let sro := fun i => ((sros.find? (·.1 == i)).map (·.2)).getD [i, 0]
-    { sro := sro, iro := sro, regs := [], verifying := verifying }
+  let f := (line.dropEndWhile (· == '\n')).toString.splitOn "|"
+  let w := s.w
+  let upd (w : World) : St := { s with w := w }
   match f with
-  | ["reset", v] => IO.println "ok"; loop h (mk [] (v == "1")) []
-  | ["sro", i, l] =>
-      let sros := sros ++ [(i.toNat!, nums l)]
-      IO.println "ok"; loop h { mk sros w.verifying with regs := w.regs } sros
-  | ["newreg", r, bs] => IO.println "ok"; loop h (setBases FUEL (w.setReg r.toNat! {}) r.toNat! (nums bs)) sros
-  | ["rbases", r, bs] => IO.println "ok"; loop h (setBases FUEL w r.toNat! (nums bs)) sros
+  | ["reset", v] => IO.println "ok"; loop h (fresh (v == "1"))
+  | ["iface", i, bs] =>
+      let g := ZI.Graph2.newNode s.g i.toNat! (if (nums bs).isEmpty then [0] else nums bs)
+      IO.println "ok"; loop h ({ s with g := g, kinds := s.kinds ++ [(i.toNat!, true)] }).sync
+  | ["decl", i, bs] =>
+      let g := ZI.Graph2.newNode s.g i.toNat! (nums bs)
+      IO.println "ok"; loop h ({ s with g := g, kinds := s.kinds ++ [(i.toNat!, false)] }).sync
+  | ["obj", o, sp] => IO.println "ok"; loop h { s with objs := s.objs ++ [(o.toNat!, sp.toNat!)] }
+  | ["newreg", r, bs] => IO.println "ok"; loop h (upd (setBases FUEL (w.setReg r.toNat! {}) r.toNat! (nums bs)))
+  | ["rbases", r, bs] => IO.println "ok"; loop h (upd (setBases FUEL w r.toNat! (nums bs)))
   | ["reg", r, req, p, name, v] =>
-      IO.println "ok"; loop h (register FUEL w r.toNat! (opts req) p.toNat! name (val v).get!) sros
+      IO.println "ok"
+      match val v with
+      | some vv => loop h (upd (register FUEL w r.toNat! (opts req) p.toNat! name vv))
+      | none => loop h (upd (unregister FUEL w r.toNat! (opts req) p.toNat! name none))     -- register(None) unregisters
   | ["unreg", r, req, p, name, v] =>
-      IO.println "ok"; loop h (unregister FUEL w r.toNat! (opts req) p.toNat! name (val v)) sros
-  | ["sub", r, req, p, v] => IO.println "ok"; loop h (subscribe FUEL w r.toNat! (opts req) (opt1 p) (val v).get!) sros
-  | ["unsub", r, req, p, v] => IO.println "ok"; loop h (unsubscribe FUEL w r.toNat! (opts req) (opt1 p) (val v)) sros
+      IO.println "ok"; loop h (upd (unregister FUEL w r.toNat! (opts req) p.toNat! name (val v)))
+  | ["sub", r, req, p, v] => IO.println "ok"; loop h (upd (subscribe FUEL w r.toNat! (opts req) (opt1 p) (val v).get!))
+  | ["unsub", r, req, p, v] => IO.println "ok"; loop h (upd (unsubscribe FUEL w r.toNat! (opts req) (opt1 p) (val v)))
+  | ["rebuild", r] => IO.println "ok"; loop h (upd (rebuild FUEL w r.toNat!))
   | ["lookup", r, req, p, name] =>
+      if badName name then IO.println "err ValueError"; loop h s else
       let (w, a) := lookup w r.toNat! (nums req) p.toNat! name
-      IO.println (shwV a); loop h w sros
+      IO.println (shwV a); loop h (upd w)
+  | ["lookup1", r, req, p, name] =>
+      if badName name then IO.println "err ValueError"; loop h s else
+      let (w, a) := lookup w r.toNat! (nums req) p.toNat! name
+      IO.println (shwV a); loop h (upd w)
   | ["lookupAll", r, req, p] =>
       let (w, a) := lookupAll w r.toNat! (nums req) p.toNat!
-      let srt := a.toArray.qsort (fun x y => x.1 < y.1) |>.toList
-      IO.println (" ".intercalate (srt.map fun p => s!"{p.1}={p.2.ident}")); loop h w sros
+      IO.println (" ".intercalate (sortS (a.map fun p => s!"{p.1}={p.2.ident}"))); loop h (upd w)
+  | ["names", r, req, p] =>
+      let (w, a) := lookupAll w r.toNat! (nums req) p.toNat!
+      IO.println (" ".intercalate (sortS (a.map fun p => s!"{p.1}"))); loop h (upd w)
   | ["subs", r, req, p] =>
       let (w, a) := subscriptions w r.toNat! (nums req) (opt1 p)
-      IO.println (" ".intercalate (a.map fun v => toString v.ident)); loop h w sros
-  | ["registered", r, req, p, name] => IO.println (shwV (registered w r.toNat! (opts req) p.toNat! name)); loop h w sros
-  | ["ro", r] => IO.println (" ".intercalate ((w.reg r.toNat!).ro.map toString)); loop h w sros
-  | _ => IO.println s!"bad {f}"; loop h w sros
-def main : IO Unit := do
-  loop (← IO.getStdin) { sro := fun i => [i, 0], iro := fun i => [i, 0], regs := [], verifying := false } []
+      IO.println (" ".intercalate (a.map fun v => toString v.ident)); loop h (upd w)
+  | ["clone", r, r2] =>
+      let x := w.reg r.toNat!
+      let w := setBases FUEL (w.setReg r2.toNat! {}) r2.toNat! x.bases
+      let w := (allRegistrations x).foldl (fun w e => register FUEL w r2.toNat! e.1 (e.2.1.getD 0) e.2.2.1 e.2.2.2) w
+      let w := (allSubscriptions x).foldl (fun w e => subscribe FUEL w r2.toNat! e.1 e.2.1 e.2.2) w
+      IO.println "ok"; loop h (upd w)
+  | ["qadapter", r, os, p, name, _] =>       -- queryAdapter / adapter_hook / queryMultiAdapter on objects
+      if badName name then IO.println "err ValueError"; loop h s else
+      let objs := nums os
+      let (w, a) := lookup w r.toNat! (objs.map s.spec) p.toNat! name
+      let out := match a with
+        | some v => if retNone v then "default" else s!"res {v.ident} {os}"
+        | none => "default"
+      IO.println out; loop h (upd w)
+  | ["subscribers", r, os, p] =>
+      let objs := nums os
+      let (w, a) := subscriptions w r.toNat! (objs.map s.spec) (opt1 p)
+      let out := if (opt1 p).isNone then "" else " ".intercalate ((a.filter fun v => !retNone v).map fun v => toString v.ident)
+      IO.println out; loop h (upd w)
+  | ["registered", r, req, p, name] => IO.println (shwV (registered w r.toNat! (opts req) p.toNat! name)); loop h s
+  | ["subscribed", r, req, p, v] => IO.println (shwV (subscribed w r.toNat! (opts req) (opt1 p) (val v).get!)); loop h s
+  | ["allreg", r] =>
+      let es := allRegistrations (w.reg r.toNat!)
+      let strs := es.map fun e => "[" ++ " ".intercalate (e.1.map shwK) ++ "/" ++ shwK e.2.1 ++ "/" ++ e.2.2.1 ++ "=" ++ toString e.2.2.2.ident ++ "]"
+      IO.println (" ".intercalate (sortS strs))
+      loop h s
+  | ["allsub", r] =>
+      let es := allSubscriptions (w.reg r.toNat!)
+      let strs := es.map fun e => "[" ++ " ".intercalate (e.1.map shwK) ++ "/" ++ shwK e.2.1 ++ "=" ++ toString e.2.2.ident ++ "]"
+      IO.println (" ".intercalate (sortS strs))
+      loop h s
+  | ["ro", r] =>
+      -- the verifying flavour refreshes `ro` lazily, on the next lookup: observe it after a (harmless) lookupAll
+      let (w, _) := lookupAll w r.toNat! [] 0
+      IO.println (" ".intercalate ((w.reg r.toNat!).ro.map toString)); loop h (upd w)
+  | _ => IO.println s!"bad {f}"; loop h s
+def main : IO Unit := do loop (← IO.getStdin) (fresh false)
 end Drv.Registry
